@@ -51,7 +51,15 @@ fn main() {
     let report = match id.as_str() {
         "C01" => props_e1::c01(&args),
         "C02" => props_e1::c02(&args),
+        "C03" => props_e1::c03(&args),
+        "C04" => props_e1::c04(&args),
+        "C07" => props_e1::c07(&args),
+        "C08" => props_e1::c08(&args),
         "C09" => seq_segments::run(&args),
+        "C10" => props_e1::c10(&args),
+        "C18" => props_e1::c18(&args),
+        "C19" => props_e1::c19(&args),
+        "C20" => props_e1::c20(&args),
         "DBG" => props_e1::dbg(&args),
         _ => {
             eprintln!("unknown property id {}", id);
